@@ -4,7 +4,10 @@
 consult the registry of the moment (Model/Serial.lean: the explicit argument `reg`).  A program is a list of steps
 
     ["cache", cid, {config}]             build a cache (Cache.setup('mem://...')) - the serializer is created here
-    ["reg", ClassName, codec]            register_type(cls, enc, dec) with harness codec 0/1/2 (serial.codec_enc / codec_dec)
+    ["reg", ClassId, codec]              register_type(cls, enc, dec) with harness codec 0/1/2 (serial.codec_enc / codec_dec); ClassId is a
+                                         key of serial.CLASSES: module-level classes, classes nested in classes ("Api.Session",
+                                         "Admin.Session": one __name__, two scopes), function-local classes ("LocalSample",
+                                         "LocalSample2"), subclasses of registered classes ("SubItem", "Scope.Item")
     ["set", cid, key, value, how]        how = "set" | "set_many"
     ["get", cid, key]                    read through get(default=sentinel), get_many, get (default None)
     ["copy", cidA, cidB, key]            raw copy of the stored form from cache A to cache B (same configuration)
@@ -17,7 +20,11 @@ Compared: (a) stored forms, unpickler calls and results with the model, whose `r
 so far at the time of each call; (b) the property (decode_encode_registries): a value whose type was registered at write
 time under codec w and is registered at read time under a codec r with dec_r(enc_w(payload)) = payload - in particular the
 same registration - and a value written (pickled / kept raw) before its type was registered, reads back equal, whatever
-was registered in between and whenever the caches were built.
+was registered in between and whenever the caches were built.  "Registered" is a statement about the CLASS that was handed
+to register_type: the slot of the class's __name__ must hold that very class's pair at write and at read time (classes that
+share a __name__ share a slot - Registry.registerClass; where the slot holds another class's pair the property makes no claim
+and only implementation == model is compared); (c) "round-trip THROUGH THAT PAIR": the registered encoder ran during the write
+and the registered decoder during every read (serial.CODEC_CALLS).
 """
 from __future__ import annotations
 
@@ -29,7 +36,12 @@ KEYS = ["k", "k_", "a:b", "Money:k", "é", "0", "user:1"]
 PAYLOADS = [b"", b"abc", b"12.50:EUR", b"a\nb", b"x_y", b"+", b"=", b"=abc", b"+abc", b"\x80\x05N.", b"123", b":"]
 # plain values that must be indifferent to registrations: some look like envelopes of the late types
 PLAIN = [b"Money:+abc", b"Item:=x", "Money:+abc", "Item:", b"", b"123", 7, None, ["Money:", 1], {"Item:+": "x"}, 1.5, True]
-NAMES = ["Money", "Item", "cls", "Node", "Ωmega", "bytesX", "d", "int8", "Key", "Str"]
+NAMES = ["Money", "Item", "cls", "Node", "Ωmega", "bytesX", "d", "int8", "Key", "Str",
+         "Api.Session", "LocalSample", "Admin.Session", "Api.Inner.Token", "LocalSample2"]
+SCOPED = ["Api.Session", "Admin.Session", "LocalSample", "LocalSample2", "Api.Inner.Token"]
+# (first class, second class with the same __name__ in another scope)
+SAME_NAME = [("Api.Session", "Admin.Session"), ("LocalSample", "LocalSample2"), ("Token", "Api.Inner.Token"),
+             ("Admin.Session", "Api.Session"), ("Api.Inner.Token", "Token")]
 
 
 # ----------------------------------------------------------------------------------------------------
@@ -45,7 +57,7 @@ def _conf_of(d: dict) -> S.Conf:
 
 def _boxed(rng, name):
     p = rng.choice(PAYLOADS) if rng.random() < 0.7 else bytes(rng.randrange(256) for _ in range(rng.randrange(0, 20)))
-    return S.BOX[name](p)
+    return S.CLASSES[name](p)
 
 
 def _plain(rng, conf: S.Conf):
@@ -86,10 +98,29 @@ def template(rng, conf: S.Conf, kind: str):
             return template(rng, conf, "after")
         return [["cache", "A", cj], ["set", "A", k1, _boxed(rng, x), how()], ["get", "A", k1], ["reg", x, cx],
                 ["get", "A", k1], ["set", "A", k2, _boxed(rng, x), how()], ["get", "A", k2], ["get", "A", k1]]
+    if kind == "scoped":        # a registered class whose __qualname__ is not its __name__ (nested in a class, local to a function)
+        x = rng.choice(SCOPED)
+        return [["reg", x, cx], ["cache", "A", cj], ["set", "A", k1, _boxed(rng, x), "set"], ["get", "A", k1],
+                ["set", "A", k2, _boxed(rng, x), "set_many"], ["get", "A", k2], ["reg", y, 0], ["get", "A", k1],
+                ["set", "A", k3, _plain(rng, conf), how()], ["get", "A", k3]]
+    if kind == "same_name":     # two classes with one __name__ in different scopes: one slot, the later registration serves both
+        a, b = rng.choice(SAME_NAME)
+        cb = rng.choice([0, 1, 2])
+        return [["reg", a, cx], ["cache", "A", cj], ["set", "A", k1, _boxed(rng, a), how()], ["get", "A", k1],
+                ["reg", b, cb], ["get", "A", k1], ["set", "A", k2, _boxed(rng, b), how()], ["get", "A", k2],
+                ["set", "A", k3, _boxed(rng, a), how()], ["get", "A", k3]]
+    if kind == "subclass":      # instances of subclasses of a registered class: `type(value)` is the exact class
+        if conf.is_json:
+            return [["reg", "Item", cx], ["cache", "A", cj], ["set", "A", k1, _boxed(rng, "Item"), how()], ["get", "A", k1],
+                    ["set", "A", k2, _boxed(rng, "Scope.Item"), how()], ["get", "A", k2]]
+        return [["reg", "Item", cx], ["cache", "A", cj], ["set", "A", k1, _boxed(rng, "SubItem"), how()], ["get", "A", k1],
+                ["set", "A", k2, _boxed(rng, "Scope.Item"), how()], ["get", "A", k2],
+                ["set", "A", k3, _boxed(rng, "Item"), how()], ["get", "A", k3], ["reg", "SubItem", 0],
+                ["get", "A", k1], ["set", "A", k1, _boxed(rng, "SubItem"), how()], ["get", "A", k1]]
     raise HarnessError(f"unknown program template {kind}")
 
 
-TEMPLATES = ["before", "after", "between", "rereg", "other_late", "unreg_write"]
+TEMPLATES = ["before", "after", "between", "rereg", "other_late", "unreg_write", "scoped", "same_name", "subclass"]
 
 
 def random_program(rng, confs):
@@ -118,7 +149,7 @@ def random_program(rng, confs):
             n = rng.choice(names)
             if rng.random() < 0.25:
                 v = _plain(rng, conf)
-            elif n in registered or not conf.is_json:
+            elif n in registered or not (conf.is_json or (conf.pk == "real" and S.CLASSES[n] in S.UNPICKLABLE)):
                 v = _boxed(rng, n)
             else:
                 v = _plain(rng, conf)
@@ -175,8 +206,9 @@ def run_program(steps):
                 cache, _, rec = conf.setup()
                 caches[step[1]] = (conf, cache, rec, t)
             elif op == "reg":
-                tag = step[1].encode("utf8")
-                reg_time.setdefault(tag, []).append(t)
+                if step[1] not in S.CLASSES:
+                    raise HarnessError(f"unknown class id {step[1]!r} in a registration program")
+                reg_time.setdefault(S.slot(S.CLASSES[step[1]]), []).append(t)
                 sb.register(step[1], step[2])
             elif op == "set":
                 _, cid, key, value, how = step
@@ -184,6 +216,7 @@ def run_program(steps):
                     continue
                 conf, cache, rec, built = caches[cid]
                 rec.reset()
+                del S.CODEC_CALLS[:]
                 try:
                     if how == "set_many":
                         await cache.set_many({key: value})
@@ -192,12 +225,17 @@ def run_program(steps):
                         res = await cache.set(key, value)
                 except Exception as exc:  # noqa: BLE001
                     res = "raised:" + type(exc).__name__
+                codec_calls = list(S.CODEC_CALLS)
                 raw = await cache.get_raw(key)
-                # an instance of an unregistered class is not a value the json pickler supports (no statement about it)
-                supported = not (conf.is_json and isinstance(value, S.Boxed)
-                                 and type(value).__name__.encode("utf8") not in sb.current())
-                written[(cid, key)] = (value, sb.current(), cid, supported)
-                events.append({"op": "set", "supported": supported, "cid": cid, "conf": conf, "key": key, "value": value, "how": how, "res": res,
+                # an instance of a class with no pair in its slot is handed to the pickler: not a value json supports, nor
+                # - for a function-local class - one pickle supports (no statement about it)
+                supported = not (isinstance(value, S.Boxed) and S.slot(type(value)) not in sb.current()
+                                 and (conf.is_json or (conf.pk == "real" and type(value) in S.UNPICKLABLE)))
+                if res is True or supported:
+                    written[(cid, key)] = (value, sb.current(), cid, supported)
+                else:
+                    written.pop((cid, key), None)       # an unsupported write that raised: nothing to read back
+                events.append({"op": "set", "supported": supported, "codec_calls": codec_calls, "wreg": sb.current(), "cid": cid, "conf": conf, "key": key, "value": value, "how": how, "res": res,
                                "dumps": list(rec.dumps_calls), "raw": raw, "reg": sb.field(), "built": built, "t": t,
                                "reg_time": {k: list(v) for k, v in reg_time.items()}})
             elif op == "get":
@@ -207,15 +245,21 @@ def run_program(steps):
                 conf, cache, rec, built = caches[cid]
                 raw = await cache.get_raw(key)
                 rec.reset()
+                del S.CODEC_CALLS[:]
                 get_a = await S.read(cache.get(key, default=S.SENT))
                 loads = list(rec.loads_calls)
+                calls_a = list(S.CODEC_CALLS)
+                del S.CODEC_CALLS[:]
                 many = await S.read(cache.get_many(key, default=S.SENT))
                 if many[0] == "value":
                     x = many[1][0] if len(many[1]) else S.SENT
                     many = ("dflt", None) if x is S.SENT else ("value", x)
+                calls_b = list(S.CODEC_CALLS)
+                del S.CODEC_CALLS[:]
                 get_c = await S.read(cache.get(key))
+                calls_c = list(S.CODEC_CALLS)
                 value, wreg, wcid, supported = written[(cid, key)]
-                events.append({"op": "get", "supported": supported, "cid": cid, "conf": conf, "key": key, "raw": raw, "getA": get_a, "loads": loads,
+                events.append({"op": "get", "supported": supported, "codec_calls": {"getA": calls_a, "manyB": calls_b, "getC": calls_c}, "cid": cid, "conf": conf, "key": key, "raw": raw, "getA": get_a, "loads": loads,
                                "manyB": many, "getC": get_c, "reg": sb.field(), "rreg": sb.current(), "value": value,
                                "wreg": wreg, "wcid": wcid, "built": built, "t": t,
                                "reg_time": {k: list(v) for k, v in reg_time.items()}})
@@ -241,17 +285,26 @@ def hypothesis_holds(ev) -> bool:
         return False
     if type(v) is int:
         return True
-    tag = type(v).__name__.encode("utf8")
+    tag = S.slot(type(v))
     wreg, rreg = ev["wreg"], ev["rreg"]
     if tag not in wreg:
         return True                         # pickled / kept as an object: the pickler hypotheses
-    if tag not in rreg:
+    if wreg[tag][0] is not type(v):
+        return False                        # the slot held ANOTHER class's pair (same __name__ elsewhere): mirrored, no claim
+    if tag not in rreg or rreg[tag][0] is not type(v):
         return False
-    if wreg[tag] is None:                   # the built-in bytes pair
-        return rreg[tag] is None
-    if not isinstance(v, S.Boxed) or rreg[tag] is None:
+    wv, rv = wreg[tag][1], rreg[tag][1]
+    if wv is None:                          # the built-in bytes pair
+        return rv is None
+    if not isinstance(v, S.Boxed) or rv is None:
         return False
-    return S.codec_dec(rreg[tag], S.codec_enc(wreg[tag], v.payload)) == v.payload
+    return S.codec_dec(rv, S.codec_enc(wv, v.payload)) == v.payload
+
+
+def own_pair(reg: dict, v):
+    """(class, variant) when the slot of v's class holds the pair registered for that very class, else None"""
+    e = reg.get(S.slot(type(v)))
+    return e if e is not None and e[0] is type(v) and e[1] is not None else None
 
 
 # ----------------------------------------------------------------------------------------------------
@@ -265,7 +318,7 @@ def evaluate_programs(programs, ids: S.Ids, driver):
     gets = [(pi, ev) for pi, ev in flat if ev["op"] == "get"]
 
     def base(ev):
-        return f"{ev['conf'].fields(ev['reg'])} key={ev['key'].encode('utf8').hex()}"
+        return f"{ev['conf'].fields(ev['reg'])} {S.key_field(ev['key'])}"
 
     def dumps_field(ev):
         return "dumps=" + S.show_val(ev["dumps"][-1][1], ids) if ev["dumps"] else "dumps=-"
@@ -305,6 +358,11 @@ def evaluate_programs(programs, ids: S.Ids, driver):
             pr.append(("spec", f"{where} -> {ev['res']}"))
         if not ev["supported"]:
             continue
+        # ---- (c) through that pair: the encoder registered for the value's class ran
+        own = own_pair(ev["wreg"], ev["value"])
+        if own is not None and ("enc", own[0], own[1]) not in ev["codec_calls"]:
+            pr.append(("spec", f"{where}: {type(ev['value']).__qualname__} was handed to register_type (codec {own[1]}) but its "
+                               f"encoder was not called by the write; stored form {ev['raw']!r:.80}"))
         m_stored = m2.split()[0]
         i_stored = "stored=" + S.show_val(ev["raw"], ids)
         if m_stored != i_stored:
@@ -315,11 +373,17 @@ def evaluate_programs(programs, ids: S.Ids, driver):
         v = ev["value"]
         want = S.canon_s(v)
         where = f"[{ev['cid']}:{conf.name()}]"
-        tag = type(v).__name__.encode("utf8")
+        tag = S.slot(type(v))
         # ---- (b) the property
         if hypothesis_holds(ev):
+            own_w, own_r = own_pair(ev["wreg"], v), own_pair(ev["rreg"], v)
             for path, label in (("getA", "get"), ("manyB", "get_many"), ("getC", "get(default None)")):
                 kind, got = ev[path]
+                # judged on the first read only: a later read answered from an (equal) earlier decoding would be harmless
+                if path == "getA" and own_w is not None and own_r is not None \
+                        and ("dec", own_r[0], own_r[1]) not in ev["codec_calls"][path]:
+                    pr.append(("spec", f"{where} {label}({ev['key']!r}): {type(v).__qualname__} is registered (codec {own_r[1]}) but "
+                                       f"its decoder was not called by the read of {v!r}"))
                 if kind != "value" or S.canon_s(got) != want:
                     shown = f"{got!r} ({type(got).__name__})" if kind == "value" else (kind + (":" + str(got) if got else ""))
                     when = ""
@@ -350,19 +414,26 @@ def evaluate_programs(programs, ids: S.Ids, driver):
         t = tags[pi]
         times = ev["reg_time"].get(tag, [])
         if isinstance(v, S.Boxed):
+            if type(v).__qualname__ != type(v).__name__ and own_pair(ev["wreg"], v) and own_pair(ev["rreg"], v):
+                t.add("registered_class_with_qualified_name_" + ("local" if "<locals>" in type(v).__qualname__ else "nested"))
+            if tag in ev["wreg"] and ev["wreg"][tag][0] is not type(v):
+                t.add("slot_held_by_a_subclass_parent" if issubclass(type(v), ev["wreg"][tag][0]) else
+                      "slot_held_by_another_class_of_the_same_name")
+            if tag not in ev["wreg"] and any(issubclass(type(v), c) and c is not type(v) for c, _ in ev["wreg"].values()):
+                t.add("instance_of_an_unregistered_subclass_of_a_registered_class")
             if times and min(times) > ev["built"]:
                 t.add("type_registered_after_cache_was_built")
             if times and tag in ev["wreg"] and any(x > ev["built"] for x in times) and ev["wcid"] != ev["cid"]:
                 t.add("read_by_another_cache_of_the_same_configuration")
             if tag not in ev["wreg"] and tag in ev["rreg"]:
                 t.add("written_before_its_type_was_registered_read_after")
-            if tag in ev["wreg"] and tag in ev["rreg"] and ev["wreg"][tag] != ev["rreg"][tag]:
+            if tag in ev["wreg"] and tag in ev["rreg"] and ev["wreg"][tag][1] != ev["rreg"][tag][1]:
                 t.add("name_registered_again_with_another_codec" + ("" if hypothesis_holds(ev) else "_incompatible"))
             if tag in ev["wreg"] and len(ev["rreg"]) > len(ev["wreg"]):
                 t.add("registry_grew_between_write_and_read")
             if pre.startswith("pre=custom:"):
                 t.add("custom_decode_path")
-        elif len(ev["rreg"]) > len(S.BASE_REG):
+        elif len(ev["rreg"]) > 1:
             t.add("plain_value_with_late_registrations")
     samples = [{"request": l5[i], "answer": a5[i]} for i in range(min(1, len(l5)))]
     return problems, tags, samples
